@@ -5,6 +5,7 @@ import (
 	"go/token"
 	"go/types"
 	"sort"
+	"strings"
 
 	"golang.org/x/tools/go/ssa"
 
@@ -21,6 +22,7 @@ func init() {
 			"(S2) a peer is put in at most one category per pass (at most one insertion on any path through the loop body) and each category is passed to evict exactly once, so no peer is proposed twice. " +
 			"(S3) the proposed list is built only from evict(category list, quota) results, the category lists come from splitPeerIds of the given peer list, and the given list is used for nothing else. " +
 			"Every pass of splitPeerIds for a non-preferred peer inserts it in a category (paths excluding every declared constant of an enumerated type are pruned). " +
+			"The constructor gives unknown peers the rest: maxUnknown = target - S with the source of every other installed max* quota among the terms of S. " +
 			"Not decided (value-level): the quota cascade arithmetic (computeUsedAndSpare), which peers are kept by distance.",
 		Run: runC44,
 	})
@@ -226,6 +228,78 @@ func runC44(c *core.Ctx) {
 		}
 	}
 	c.Check(okRes, "C44/eviction-from-given-list-only", "ComputeEvictionList/result-from-evict", ce.Pos(), "the proposed list is assembled from evict(...) results only", "something other than an evict(...) result is appended to the proposed eviction list")
+	c44UnknownIsTheRest(c)
+}
+
+// c44UnknownIsTheRest: the constructor gives unknown peers what is left of the target peer count
+// after EVERY category quota it installs: maxUnknown = target - S where the terms of S include the
+// source of each other max* field. A quota missing from S is handed out twice (to its category and
+// to the unknown peers) and the connections kept exceed the target.
+func c44UnknownIsTheRest(c *core.Ctx) {
+	const pkg = "p2p/libp2p/networksharding"
+	fn := anchorF(c, pkg, "NewListsSharder")
+	if fn == nil {
+		return
+	}
+	src := func(v ssa.Value) string { return core.ExprKey(stripConv(v)) }
+	quota := map[string]string{} // field -> source key
+	var unknown, target ssa.Value
+	core.Instrs(fn, func(in ssa.Instruction) {
+		st, ok := in.(*ssa.Store)
+		if !ok {
+			return
+		}
+		fa, ok := st.Addr.(*ssa.FieldAddr)
+		if !ok {
+			return
+		}
+		f := core.FieldOfAddr(fa)
+		if f == nil || !strings.HasPrefix(f.Name(), "max") {
+			return
+		}
+		switch f.Name() {
+		case "maxUnknown":
+			unknown = st.Val
+		case "maxPeerCount":
+			target = st.Val
+		default:
+			quota[f.Name()] = src(st.Val)
+		}
+	})
+	if unknown == nil || target == nil || len(quota) < 6 {
+		c.Undecided("C44/unknown-quota-is-the-rest", "NewListsSharder", fn.Pos(), fmt.Sprintf("stores to maxUnknown/maxPeerCount or the category quotas not found (%d quotas)", len(quota)))
+		return
+	}
+	sub, ok := stripConv(unknown).(*ssa.BinOp)
+	if !ok || sub.Op != token.SUB {
+		c.Fail("C44/unknown-quota-is-the-rest", "NewListsSharder/maxUnknown", fn.Pos(), "maxUnknown is not computed as a difference (target - provided)")
+		return
+	}
+	terms := map[string]bool{}
+	var split func(v ssa.Value)
+	split = func(v ssa.Value) {
+		v = stripConv(v)
+		if bo, isBo := v.(*ssa.BinOp); isBo && bo.Op == token.ADD {
+			split(bo.X)
+			split(bo.Y)
+			return
+		}
+		terms[core.ExprKey(v)] = true
+	}
+	split(sub.Y)
+	c.Check(src(sub.X) == src(target), "C44/unknown-quota-is-the-rest", "NewListsSharder/minuend", sub.Pos(),
+		"the rest is taken from the value installed as the target peer count",
+		"maxUnknown is not computed from the value installed as maxPeerCount")
+	var names []string
+	for f := range quota {
+		names = append(names, f)
+	}
+	sort.Strings(names)
+	for _, f := range names {
+		c.Check(terms[quota[f]], "C44/unknown-quota-is-the-rest", "NewListsSharder/"+f, sub.Pos(),
+			"the quota of this category is subtracted before the rest goes to unknown peers",
+			"the quota installed as "+f+" ("+quota[f]+") is not among the terms subtracted from the target when maxUnknown is computed: those slots are given both to their category and to unknown peers, ComputeEvictionList keeps more connections than the target peer count")
+	}
 }
 
 // arithOperands returns the leaves of an arithmetic expression (through +,-,*,/ and conversions only).
